@@ -64,6 +64,14 @@ ASSUMPTIONS = [
     "cluster ids are integers and each mutation is assigned to exactly one cluster in the cluster table (as PyClone-VI emits)",
     "mutation ids and sample ids contain no tab / newline characters; sample ids are distinct",
 ]
+EXPLANATION = (
+    "All nine property theorems are proved for the table model (any forest shape incl. no clone at all and clones without own "
+    "data points, any outlier set, clustered and unclustered, any number of samples).  Tied by the correspondence only, not by a "
+    "theorem: (i) that the Newick *string* denotes the model's forest (the model prints it with the visitor's rule; the harness "
+    "parses the code's and the model's string and compares them and the node set with `LF.ids`); (ii) that the CCF computation "
+    "itself completes on every tree (an input of the table model; exercised on every case, incl. the F8 all-outlier trees of the "
+    "corpus); (iii) pandas' row-preserving operations (sort, groupby, explode, concat).  Python's int() accepts a few spellings "
+    "(blanks, '+', '_') that the model's parser rejects; the loader never produces them.")
 TOL = 1e-9
 SITE_TABLE = "process_trace.get_clone_table"
 
@@ -321,10 +329,10 @@ def gen_direct_case(rnd, tier, i):
 
 def cases(tier, rnd):
     out = []
-    for i in range(8 if tier == "quick" else 60):  # first: each costs a few seconds (numba compilation per worker)
+    for i in range(6 if tier == "quick" else 60):  # first: each costs a few seconds (numba compilation per worker)
         out.append(gen_run_case(rnd, i))
-    nt = 400 if tier == "quick" else 8000
-    nd = 90 if tier == "quick" else 900
+    nt = 260 if tier == "quick" else 8000
+    nd = 60 if tier == "quick" else 900
     for i in range(nt):
         out.append(gen_trace_case(rnd, tier, i))
     for k in range(6 if tier == "quick" else 40):
@@ -798,7 +806,20 @@ def check_direct(ctx, case):
     ctx.done(case, nontrivial=False, sample={"bad": bad})
 
 
+def fresh_process_state():
+    """phyclone's likelihood memo tables are keyed by the bytes of the arrays, not their shape; one real run / command has one
+    grid shape, the harness runs many shapes in one process (1x4 and 2x2 would collide), so every case starts with empty tables"""
+    from phyclone.tree.utils import compute_log_S, _convolve_two_children
+    from phyclone.utils.dev import clear_proposal_dist_caches
+
+    for fn in (compute_log_S, _convolve_two_children):
+        if hasattr(fn, "cache_clear"):
+            fn.cache_clear()
+    clear_proposal_dist_caches()
+
+
 def check(ctx, case):
+    fresh_process_state()
     ctx.stat("kind_" + case["kind"])
     if case["kind"] == "trace":
         return check_trace(ctx, case)
@@ -845,7 +866,7 @@ def shrink(failure):
     changed = True
     while changed:
         changed = False
-        c = best["case"]
+        c = {k: v for k, v in best["case"].items() if k not in ("expect_empty_clone", "note")}
         cands = []
         for ci in range(len(c["chains"])):
             if len(c["chains"]) > 1:
